@@ -426,3 +426,58 @@ Example C14_not_nested :
   valid_table_nameb n1 = true /\ valid_table_nameb n2 = true /\ has_prefix n2 n1 = true
   /\ has_prefix (n2 ++ s_slash1) (n1 ++ s_slash1) = false.
 Proof. exact ex_not_nested. Qed.
+
+(* ---- table ids: length and definition-file names ---- *)
+
+(* a valid table id has between 1 and 50 characters *)
+Theorem C14_valid_tid_bounded : forall t, valid_tid t = true -> (1 <= length t <= 50)%nat.
+Proof. exact valid_tid_bounded. Qed.
+Print Assumptions C14_valid_tid_bounded.
+
+(* ... and does not end in ".table.proto" or ".table.proto.tmp" *)
+Theorem C14_valid_tid_not_definition_file : forall t, valid_tid t = true ->
+  has_suffix t s_table_proto = false /\ has_suffix t s_table_proto_tmp = false.
+Proof. exact valid_tid_not_definition_file. Qed.
+Print Assumptions C14_valid_tid_not_definition_file.
+
+(* the definition-file name of one table is never the name (directory) of a table - the same or
+   another - nor inside one *)
+Theorem C14_definition_files_apart : forall n1 n2, valid_table_name n1 -> valid_table_name n2 ->
+  n1 ++ s_table_proto <> n2
+  /\ ~ has_prefix (n1 ++ s_table_proto) (n2 ++ s_slash1) = true
+  /\ n1 ++ s_table_proto_tmp <> n2
+  /\ ~ has_prefix (n1 ++ s_table_proto_tmp) (n2 ++ s_slash1) = true.
+Proof. exact definition_files_apart. Qed.
+Print Assumptions C14_definition_files_apart.
+
+Theorem C14_definition_file_not_table_name : forall n, valid_table_name n ->
+  ~ valid_table_name (n ++ s_table_proto) /\ ~ valid_table_name (n ++ s_table_proto_tmp).
+Proof. exact definition_file_not_table_name. Qed.
+Print Assumptions C14_definition_file_not_table_name.
+
+Theorem C14_reachable_definition_files_apart : forall cs n1 n2,
+  In n1 (map fst (fst (run [] cs))) -> In n2 (map fst (fst (run [] cs))) ->
+  n1 ++ s_table_proto <> n2
+  /\ ~ has_prefix (n1 ++ s_table_proto) (n2 ++ s_slash1) = true
+  /\ n1 ++ s_table_proto_tmp <> n2
+  /\ ~ has_prefix (n1 ++ s_table_proto_tmp) (n2 ++ s_slash1) = true.
+Proof. exact reachable_definition_files_apart. Qed.
+Print Assumptions C14_reachable_definition_files_apart.
+
+Example C14_tid_length_and_suffix :
+  valid_tid ex_tid50 = true /\ valid_tid ex_tid51 = false                        (* 50 and 51 characters *)
+  /\ valid_tid (ex_tid ++ s_table_proto) = false                                 (* t1.table.proto *)
+  /\ valid_tid (120%N :: s_table_proto_tmp) = false                              (* x.table.proto.tmp *)
+  /\ valid_tid (97%N :: s_table_proto ++ [120%N]) = true                         (* a.table.protox *)
+  /\ valid_tid (ex_tid ++ s_table_proto ++ [46%N; 116%N]) = true                 (* t1.table.proto.t *)
+  /\ valid_table_nameb (table_name ex_parent ex_tid ++ s_table_proto) = false.
+Proof. exact ex_tid_length_and_suffix. Qed.
+
+Example C14_create_definition_file_rejected :
+  let s := fst (run [] [mkCall (BCreateTable ex_parent ex_tid []) 0 []]) in
+  s <> []
+  /\ step s (mkCall (BCreateTable ex_parent (ex_tid ++ s_table_proto) []) 0 []) = (s, fail cInvalidArgument)
+  /\ step s (mkCall (BCreateTable ex_parent (ex_tid ++ s_table_proto_tmp) []) 0 []) = (s, fail cInvalidArgument)
+  /\ step s (mkCall (BCreateTable ex_parent ex_tid51 []) 0 []) = (s, fail cInvalidArgument)
+  /\ br_code (snd (step s (mkCall (BCreateTable ex_parent ex_tid50 []) 0 []))) = cOK.
+Proof. exact ex_create_definition_file_rejected. Qed.
